@@ -740,11 +740,23 @@ theorem supportsKind_eq (T : Tables) (hT : versionsOK T = true) (d : Decl) (k : 
     (fun f _ v hv => by cases hv; exact added_le_latest hT f)
   simp [Decl.supportsKind, kindOfProg, h, supportedOf]
 
+/-- a kind that is already at (or beyond) the latest version is only cloned -/
+theorem kindAtLatest_of_le (T : Tables) (k : Kind) (h : T.latest ≤ k.ver T) : kindAtLatest T k = some k := by
+  simp [kindAtLatest, h]
+
+/-- on a kind of the latest version every `resulting_problem_kind` body starts from the kind itself -/
+theorem startKind_latest (T : Tables) (d : Decl) (k : Kind) (hk : k.version = some T.latest) :
+    d.startKind T k = some k := by
+  unfold Decl.startKind
+  split
+  · exact kindAtLatest_of_le T k (by rw [ver_of_version hk]; exact Nat.le_refl _)
+  · rfl
+
 theorem resultingKind_eq (T : Tables) (hT : versionsOK T = true) (d : Decl) (k : Kind)
     (hk : k.version = some T.latest) : d.resultingKind T k = some (execKind d.resulting k) := by
   have h := run_eq_exec T k.version d.resulting k.feats k.feats
     (fun f _ v hv => by rw [hk] at hv; cases hv; exact added_le_latest hT f)
-  simp [Decl.resultingKind, h, execKind]
+  simp [Decl.resultingKind, startKind_latest T d k hk, h, execKind]
 
 /-- what `Factory._get_engine` has established when it returns a pipeline: every stage's compiler
     supports the kind DECLARED for its input -/
